@@ -831,6 +831,14 @@ func main() {
 	}
 	files["Skeleton_modelwrites.v"] = wm
 	names = append(names, "Skeleton_modelwrites.v")
+	wl := &strings.Builder{}
+	wl.WriteString("(* GENERATED by /verif/translator from /repo's working tree. Do not edit. *)\nFrom Coq Require Import List String.\nImport ListNotations.\nOpen Scope string_scope.\n\n")
+	if err := emitFieldLocks(wl, fset, repo); err != nil {
+		fmt.Fprintln(os.Stderr, "translator:", err)
+		status = 1
+	}
+	files["Skeleton_fieldlocks.v"] = wl
+	names = append(names, "Skeleton_fieldlocks.v")
 	for _, n := range names {
 		if err := os.WriteFile(filepath.Join(outdir, n), []byte(files[n].String()), 0o644); err != nil {
 			fmt.Fprintln(os.Stderr, err)
